@@ -67,7 +67,7 @@ def dedup (xs : List String) : List String :=
   xs.foldl (fun acc x => if acc.contains x then acc else acc ++ [x]) []
 
 /-- judge a listing output of the implementation against the facts -/
-def judgeListing (st : State) (impl : String) : String :=
+def judgeListingRows (rowOf : String → Option Row) (st : State) (impl : String) : String :=
   if impl == "err" then "ok" else
   match fields impl with
   | [i, _, _] =>
@@ -77,8 +77,8 @@ def judgeListing (st : State) (impl : String) : String :=
     let vs := (body.splitOn ",").map (fun tok =>
       match tok.splitOn ":" with
       | [c, u, l, _, _, _, _] =>
-        match u.toNat?, parseOptNat l, st.get c with
-        | some u, some l, (some r, h) => judgeItem r h u l
+        match u.toNat?, parseOptNat l, rowOf c with
+        | some u, some l, some r => judgeItem r (st.get c).2 u l
         | _, _, _ => "viol:item-without-row"
       | _ => "viol:unparseable-output")
     (vs.find? (· != "ok")).getD "ok"
@@ -98,55 +98,86 @@ def judgeMut (kind : String) (n : Nat) (pre : Option Row) (h : Head) (impl : Str
       | _, _ => "viol:row-appeared-or-vanished"
   | _ => "viol:unparseable-output"
 
-def c34Step (st : State) (op impl : String) : State × String × String :=
-  let bad : State × String × String := (st, "bad-op", "ok")
+/-- driver state: the model's table, plus the rows as the IMPLEMENTATION's store
+    last reported them (the judge reasons about the implementation's own history,
+    so a verdict names the first command that broke the property, not a later echo) -/
+structure DState where
+  model : State
+  implRows : List (String × Option Row)
+
+def DState.implRow (d : DState) (c : String) : Option Row :=
+  match d.implRows.find? (·.1 == c) with
+  | some p => p.2
+  | none => none
+
+def DState.setImpl (d : DState) (c : String) (r : Option Row) : DState :=
+  { d with implRows := (c, r) :: d.implRows.filter (·.1 != c) }
+
+/-- the implementation's post-row of a mutation output, if it parses -/
+def implPost (impl : String) : Option (Option Row) :=
+  match fields impl with
+  | [_, row] => parseRow row
+  | _ => none
+
+def judgeListing (d : DState) (impl : String) : String :=
+  judgeListingRows d.implRow d.model impl
+
+def c34Step (d : DState) (op impl : String) : DState × String × String :=
+  let st := d.model
+  let bad : DState × String × String := (d, "bad-op", "ok")
+  let mut_ (c : String) (st' : State) (m v : String) : DState × String × String :=
+    let d' : DState := { d with model := st' }
+    (match implPost impl with
+      | some r => d'.setImpl c r
+      | none => d', m, v)
   match fields op with
-  | ["row", c, j, r, d, a, t] =>
-    match j.toNat?, r.toNat?, d.toNat?, a.toInt?, (if t == "1" then some true else if t == "0" then some false else none) with
-    | some j, some r, some d, some a, some t => (st.put c (some ⟨j, r, d, a, t⟩) (st.get c).2, "ok", "ok")
+  | ["row", c, j, r, dl0, a, t] =>
+    match j.toNat?, r.toNat?, dl0.toNat?, a.toInt?, (if t == "1" then some true else if t == "0" then some false else none) with
+    | some j, some r, some dl, some a, some t =>
+      (({ d with model := st.put c (some ⟨j, r, dl, a, t⟩) (st.get c).2 } : DState).setImpl c (some ⟨j, r, dl, a, t⟩), "ok", "ok")
     | _, _, _, _, _ => bad
-  | ["norow", c] => (st.put c none (st.get c).2, "ok", "ok")
+  | ["norow", c] => (({ d with model := st.put c none (st.get c).2 } : DState).setImpl c none, "ok", "ok")
   | ["head", c, o, l, r, s, last] =>
     match parseOutcome o, l.toNat?, r.toNat?, s.toNat?, parseOptNat last with
-    | some o, some l, some r, some s, some last => (st.put c (st.get c).1 ⟨o, l, r, s, last⟩, "ok", "ok")
+    | some o, some l, some r, some s, some last => ({ d with model := st.put c (st.get c).1 ⟨o, l, r, s, last⟩ }, "ok", "ok")
     | _, _, _, _, _ => bad
   | ["send", c, own] =>
     let (row, h) := st.get c
     let l := h.committed + 1
-    (st.put c row { h with committed := l, last := some l, ownSend := if own == "1" then l else h.ownSend }, "ok", "ok")
+    ({ d with model := st.put c row { h with committed := l, last := some l, ownSend := if own == "1" then l else h.ownSend } }, "ok", "ok")
   | ["retain", c, x] =>
     match x.toNat? with
-    | some x => let (row, h) := st.get c; (st.put c row { h with retention := max h.retention x }, "ok", "ok")
+    | some x => let (row, h) := st.get c; ({ d with model := st.put c row { h with retention := max h.retention x } }, "ok", "ok")
     | none => bad
   | ["clear", c] =>
     let (row, h) := st.get c
     let (s, row') := clearStep row h
-    (st.put c row' h, s!"{showStatus s} {showRow row'}", judgeMut "clear" 0 row h impl)
+    mut_ c (st.put c row' h) s!"{showStatus s} {showRow row'}" (judgeMut "clear" 0 (d.implRow c) h impl)
   | ["set", c, n] =>
     match n.toInt? with
     | some n =>
       let (row, h) := st.get c
       let (s, row') := setStep row h n
-      (st.put c row' h, s!"{showStatus s} {showRow row'}", judgeMut "set" n.toNat row h impl)
+      mut_ c (st.put c row' h) s!"{showStatus s} {showRow row'}" (judgeMut "set" n.toNat (d.implRow c) h impl)
     | none => bad
   | ["del", c] =>
     let (row, h) := st.get c
     let (s, row') := deleteStep row h
-    (st.put c row' h, s!"{showStatus s} {showRow row'}", judgeMut "del" 0 row h impl)
+    mut_ c (st.put c row' h) s!"{showStatus s} {showRow row'}" (judgeMut "del" 0 (d.implRow c) h impl)
   | ["act", c, t] =>
     match t.toInt? with
     | some t =>
       let (row, h) := st.get c
       let (s, row') := activateStep row t
-      (st.put c row' h, s!"{showStatus s} {showRow row'}", judgeMut "act" 0 row h impl)
+      mut_ c (st.put c row' h) s!"{showStatus s} {showRow row'}" (judgeMut "act" 0 (d.implRow c) h impl)
     | none => bad
   | ["list"] =>
     let cands := (st.filter (fun ch => ch.row.isSome)).map (fun ch => (ch.name, ch.row, ch.head))
-    (st, listing cands, judgeListing st impl)
+    (d, listing cands, judgeListing d impl)
   | ["retry", cs] =>
     let keys := dedup ((cs.splitOn ",").filter (· ≠ ""))
     if keys.isEmpty then bad else
-    (st, listing (keys.map (fun c => (c, (st.get c).1, (st.get c).2))), judgeListing st impl)
+    (d, listing (keys.map (fun c => (c, (st.get c).1, (st.get c).2))), judgeListing d impl)
   | _ => bad
 
-def main : IO Unit := Drv.main { init := [], step := c34Step }
+def main : IO Unit := Drv.main { init := { model := [], implRows := [] }, step := c34Step }
